@@ -34,14 +34,18 @@ LanFollow(p, toks, i) == IF i > Len(toks) THEN TRUE
 TSession ==
   /\ IsEvent("Session")
   /\ pos' = StartPos /\ due' = <<>> /\ clean' = TRUE /\ sess' = [wellformed |-> Rec[l].wellformed, id |-> Rec[l].id, pacing |-> Rec[l].pacing]
-  /\ wantUci' = FALSE /\ ids' = 0 /\ resync' = FALSE /\ armed' = FALSE /\ fromBook' = FALSE
+  /\ wantUci' = FALSE /\ ids' = 0 /\ resync' = FALSE /\ armed' = 0 /\ fromBook' = FALSE
 
 \* a go with a long time limit on an open position that is not answered from the book arms the
 \* "isready even while a search runs" clause: the next readyok has to come before that search's bestmove
 TIn ==
   /\ IsEvent("In")
   /\ UNCHANGED fromBook
-  /\ armed' = (IF Rec[l].kind = "go" /\ "long" \in DOMAIN Rec[l] THEN (LegalPosition(pos) /\ Legal(pos) # {}) ELSE IF Rec[l].kind \in {"stop", "quit", "eof", "position", "ucinewgame"} THEN FALSE ELSE armed)
+  \* armed: 0 = no long search running; 1 = running, no readyok outstanding; 2 = running and a readyok is outstanding (every command
+  \* the driver sends is followed by one isready barrier, an isready command is its own barrier)
+  /\ armed' = (IF Rec[l].kind = "go" /\ "long" \in DOMAIN Rec[l] THEN (IF LegalPosition(pos) /\ Legal(pos) # {} THEN 2 ELSE 0)
+               ELSE IF Rec[l].kind \in {"stop", "quit", "eof", "position", "ucinewgame", "go"} THEN 0
+               ELSE IF armed >= 1 THEN 2 ELSE 0)
   /\ LET e == Rec[l] IN
      CASE e.kind = "position" ->
             IF ~e.valid THEN /\ resync' = TRUE /\ due' = MarkAll(due) /\ UNCHANGED <<pos, clean, sess, wantUci, ids>>
@@ -68,10 +72,10 @@ TState ==
 
 TOut ==
   /\ IsEvent("Out")
-  /\ (IF Rec[l].kind = "bestmove" /\ armed
+  /\ (IF Rec[l].kind = "bestmove" /\ armed = 2
       THEN Diag(P, FALSE, [kind |-> "isready was not answered while the search was running (readyok only after the bestmove)", session |-> sess.id])
       ELSE TRUE)
-  /\ armed' = (IF Rec[l].kind \in {"readyok", "bestmove", "book"} THEN FALSE ELSE armed)
+  /\ armed' = (IF Rec[l].kind \in {"bestmove", "book"} THEN 0 ELSE IF Rec[l].kind = "readyok" /\ armed = 2 THEN 1 ELSE armed)
   /\ fromBook' = (IF Rec[l].kind = "book" THEN TRUE ELSE IF Rec[l].kind = "bestmove" THEN FALSE ELSE fromBook)
   /\ (IF Rec[l].kind = "bestmove" /\ due # <<>> /\ "BOOK" \in DOMAIN IOEnv
       THEN LET k == BookKey(due[1].p) IN
@@ -127,7 +131,7 @@ TExit ==
        /\ Diag(P, due = <<>> \/ e.status # 0, [kind |-> "go never answered by a bestmove", pos |-> (IF due # <<>> THEN ToFen(due[1].p) ELSE ""), session |-> sess.id])
   /\ due' = <<>> /\ UNCHANGED <<pos, clean, sess, wantUci, ids, resync, armed, fromBook>>
 
-TraceInit == l = 1 /\ pos = StartPos /\ due = <<>> /\ clean = TRUE /\ sess = [wellformed |-> TRUE, id |-> 0, pacing |-> ""] /\ wantUci = FALSE /\ ids = 0 /\ resync = FALSE /\ armed = FALSE /\ fromBook = FALSE
+TraceInit == l = 1 /\ pos = StartPos /\ due = <<>> /\ clean = TRUE /\ sess = [wellformed |-> TRUE, id |-> 0, pacing |-> ""] /\ wantUci = FALSE /\ ids = 0 /\ resync = FALSE /\ armed = 0 /\ fromBook = FALSE
 TraceNext == TSession \/ TIn \/ TState \/ TOut \/ TWaitEnd \/ TSearchStart \/ THang \/ TExit
 Accepted == IF TLCGet("stats").diameter - 1 = Len(Rec) THEN PrintT(<<"ACCEPTED", Len(Rec)>>)
             ELSE PrintT(<<"STUCK", TLCGet("stats").diameter, Len(Rec)>>)
